@@ -567,6 +567,24 @@ BASE_TUPLES = [[s, r, o] for s in E_SUBJ for r in E_REL for o in E_RES]         
 ALL_TUPLES = [t + [c] for t in BASE_TUPLES for c in ENUM_CAV]                    # 225
 
 
+def helper_rules(parent_rel, with_group_grants):
+    """rbacx.rebac.helpers.standard_userset(...) in the case language (so that a change of the helper is followed)."""
+    from rbacx.rebac import helpers, local as L
+
+    def descr(e):
+        if isinstance(e, L.This):
+            return "this"
+        if isinstance(e, L.ComputedUserset):
+            return cu(e.relation)
+        if isinstance(e, L.TupleToUserset):
+            return ttu(e.tupleset, e.computed_userset)
+        if isinstance(e, (list, tuple)):
+            return un(*[descr(x) for x in e])
+        raise TypeError("standard_userset produced an unknown node %r" % (e,))
+
+    return {rel: descr(e) for rel, e in helpers.standard_userset(parent_rel, with_group_grants).items()}
+
+
 def lookups_for(store):
     rels = sorted({t[1] for t in store}) or ["viewer"]
     ress = sorted({t[2] for t in store}) + ["nowhere:0"]
@@ -616,6 +634,15 @@ def seeds():
                                 ["doc:1", "editor", "doc:2", None]], RULE_POOL[11]))
     S.append(("wide-frontier", [["folder:%d" % i, "parent", "doc:1", None] for i in range(1, 5)]
               + [["user:a", "viewer", "folder:4", None]], inh))
+    # rule maps produced by the shipped helper rbacx.rebac.helpers.standard_userset (viewer/editor/owner, parent
+    # inheritance, group grants), read back into the case language
+    for pr, gg in (("parent", True), ("parent", False), (None, True)):
+        hr = helper_rules(pr, gg)
+        S.append(("helper-standard-%s-%s" % (pr, gg),
+                  [["folder:1", "parent", "doc:1", None], ["folder:2", "parent", "folder:1", "c1"],
+                   ["user:a", "owner", "folder:2", None], ["group:g", "granted", "doc:1", None],
+                   ["user:b", "member", "group:g", "c2"], ["user:c", "editor", "doc:1", None]],
+                  {"doc": hr, "folder": hr, "group": {"member": "this"}}))
     S.append(("empty-caveat-name", [["user:a", "viewer", "doc:1", ""], ["folder:1", "parent", "doc:1", ""],
                                     ["user:a", "viewer", "folder:1", None]], inh))
     return S
